@@ -31,7 +31,8 @@ theorem posSum_nonneg (sc : List (Cand × Rat)) : 0 ≤ posSum sc := by
 
 theorem posSum_cons (x : Cand × Rat) (sc : List (Cand × Rat)) :
     posSum (x :: sc) = (if 0 < x.2 then x.2 else 0) + posSum sc := by
-  simp [posSum, rsum_cons]
+  unfold posSum
+  rw [List.map_cons, rsum_cons]
 
 /-- a decrement that leaves a positive tally lowers the positive total by exactly one and leaves it
 positive -/
@@ -47,7 +48,6 @@ theorem decScore_posSum (c : Cand) (sc sc' : List (Cand × Rat)) (v : Rat)
     · injection h with h
       injection h with h1 h2
       subst h1
-      simp only at h2
       have hs : 0 < s := by linarith
       rw [posSum_cons, posSum_cons]
       simp only [hs, if_true]
@@ -105,7 +105,7 @@ theorem vetoLoop_no_strike (p : Profile) (tb : Option TB) (order : List Nat) (i 
           have : b.ranking = [] := by simpa using hlast
           simp [this]
         have : liveCount p (bi :: rest) = liveCount p rest := by
-          unfold liveCount; simp [List.filter_cons, hl]
+          unfold liveCount; simp [hl]
         rw [this]
         exact ih _ _ _ _ h
       · rename_i lastPos hlast
@@ -114,9 +114,9 @@ theorem vetoLoop_no_strike (p : Profile) (tb : Option TB) (order : List Nat) (i 
           rw [hb]
           cases hr : b.ranking with
           | nil => rw [hr] at hlast; cases hlast
-          | cons _ _ => rfl
+          | cons _ _ => simp [hr]
         have hcount : liveCount p (bi :: rest) = liveCount p rest + 1 := by
-          unfold liveCount; simp [List.filter_cons, hl]
+          unfold liveCount; simp [hl]
         have stepfact : ∀ (least : Cand) (smp' : List (List Cand)) (tbs' : List (List Cand × Ranking)),
             (do
               let (sc', v) ← decScore least sc
